@@ -448,7 +448,6 @@ def provenance_rule(repo: Repo, rep: Report, rid: str) -> None:
     rep.floor(rid, "provenance obligations", n, 11)
 
 
-@shape_of("layout")
 def calculator_rule(repo: Repo, rep: Report, rid: str) -> None:
     rep.rule(rid, "layout calculator ordering: per-field round-up precedes every consumer of the offset, struct alignment is the running "
                   "max on every iteration, fields advance by their length, tail padding uses the struct alignment")
